@@ -30,7 +30,9 @@ ASSUMPTIONS = [
 REQUIRED = {"L1_classes": 200, "L4_idempotence_checks": 2000, "L3_nsid_checks": 2000, "bidi_edge_titles": 100}
 LEVEL_TEXT = ("Exploration: 2e5 (quick) / 1e7 (thorough) generated spellings across all bundled site "
               "configurations; each call of the real splitname is judged by four laws, the reference being an "
-              "independent 30-line normaliser written from the statement.")
+              "independent 30-line normaliser written from the statement; edge whitespace includes Unicode spaces, words "
+              "include compatibility characters; every site is asked for again in other orders and compared with its "
+              "file on disk, and a transient I/O error at a site's first load is followed by retries in a fresh process.")
 LEVEL_NOTE = "Trusts the reference normaliser and the spelling generator; language-specific case folding is out of scope."
 TECHNIQUE = "runtime law monitor (equivalence, reference agreement, idempotence) on the real function over generated spellings"
 
